@@ -281,8 +281,12 @@ fn kind_from(k: u8, with_time: bool) -> usize {
 
 /// Resolve an abstract op against the current (model or observed) tree.
 pub fn resolve(raw: &RawOp, t: &Tree, ctx: &Ctx, profile: Profile, with_time: bool) -> Op {
+    resolve_kind(kind_from(raw.kind, with_time), raw, t, ctx, profile)
+}
+
+/// Resolve with an explicitly chosen op kind (index into model::OP_KINDS).
+pub fn resolve_kind(kind: usize, raw: &RawOp, t: &Tree, ctx: &Ctx, profile: Profile) -> Op {
     use Want::*;
-    let kind = kind_from(raw.kind, with_time);
     let typed = profile == Profile::Typed;
     let tgt = |table: &[(u8, Want)]| -> String {
         let want = if typed { weighted(raw.mode, table) } else { weighted(raw.mode, &[(3, Existing), (2, Any), (1, Dir), (1, File), (1, AbsentChild), (1, BelowFile)]) };
